@@ -99,6 +99,16 @@ class Bound(V):                   # bound method / function value
         return f'Bound({self.fi.fq}, {self.self!r})'
 
 
+class DictV(V):                   # a module-level constant dict (dispatch table): python key -> V
+    __slots__ = ('map',)
+
+    def __init__(self, m):
+        self.map = dict(m)
+
+    def __repr__(self):
+        return f'Dict{sorted(map(repr, self.map))}'
+
+
 class GenV(V):                    # the lexer's token generator
     def __repr__(self):
         return 'Gen'
@@ -561,8 +571,10 @@ class Interp:
     def truth(self, fi, v: V, st: State) -> Optional[bool]:
         if isinstance(v, C):
             return bool(v.v)
-        if isinstance(v, Tok):
+        if isinstance(v, (Tok, Bound)):
             return True
+        if isinstance(v, DictV):
+            return bool(v.map)
         if isinstance(v, Tup):
             return len(v.items) > 0
         if isinstance(v, Ref):
@@ -594,10 +606,25 @@ class Interp:
             if e.id in BUILTIN_EXC_PARENTS:
                 return [(C(e.id), env, st)]
             r = self.repo.resolve_name(fi.module, e.id)
+            if r[0] == 'func':
+                return [(Bound(r[2], None), env, st)]
             if r[0] == 'const':
                 v = r[1].constants[r[2]]
                 if isinstance(v, ast.Constant):
                     return [(C(v.value), env, st)]
+                if isinstance(v, ast.Dict) and v.keys and all(isinstance(k, ast.Constant) for k in v.keys):
+                    table = {}
+                    for k, x in zip(v.keys, v.values):
+                        rx = self.repo.resolve_name(r[1], x.id) if isinstance(x, ast.Name) else ('?',)
+                        if rx[0] == 'func':
+                            table[k.value] = Bound(rx[2], None)
+                        elif isinstance(x, ast.Constant):
+                            table[k.value] = C(x.value)
+                        else:
+                            table = None
+                            break
+                    if table is not None:
+                        return [(DictV(table), env, st)]
                 from .src import try_fold
                 ok, val = try_fold(v, {}, self.repo, r[1])
                 if ok and isinstance(val, (tuple, list, frozenset, set)) and all(isinstance(x, (str, int, type(None))) for x in val):
@@ -632,6 +659,14 @@ class Interp:
                 elif isinstance(base, Tup) and isinstance(e.slice, ast.Constant) and isinstance(e.slice.value, int) \
                         and -len(base.items) <= e.slice.value < len(base.items):
                     out.append((base.items[e.slice.value], e2, t2))
+                elif isinstance(base, DictV):
+                    for k, e3, t3 in self.expr(fi, e.slice, e2, t2, stack):
+                        if isinstance(k, Exc):
+                            out.append((k, e3, t3))
+                        elif isinstance(k, C):
+                            out.append((base.map[k.v], e3, t3) if k.v in base.map else (Exc('KeyError'), e3, t3))
+                        else:
+                            raise AnalysisError(f'E6: dispatch table indexed by a value that is not a token kind: {norm(e)[:50]}')
                 else:
                     out.append((UNK, e2, t2))
             return out
@@ -776,6 +811,9 @@ class Interp:
                     return C(r if isinstance(op, ast.Eq) else not r)
                 return UNK
             if isinstance(op, (ast.In, ast.NotIn)):
+                if isinstance(a, C) and isinstance(b, DictV):
+                    r = a.v in b.map
+                    return C(r if isinstance(op, ast.In) else not r)
                 if isinstance(a, C) and isinstance(b, Tup) and all(isinstance(x, C) for x in b.items):
                     r = a.v in [x.v for x in b.items]
                     return C(r if isinstance(op, ast.In) else not r)
@@ -819,6 +857,22 @@ class Interp:
                     for r, e2, t2 in self.expr(fi, e.args[0], env, st, stack)]
         if isinstance(fn, ast.Name) and fn.id == 'bool' and fn.id not in env and len(e.args) == 1:
             return [(truth if isinstance(truth, Exc) else C(truth), e2, t2) for truth, e2, t2 in self.cond(fi, e.args[0], env, st, stack)]
+        if isinstance(fn, ast.Attribute) and fn.attr == 'get' and 1 <= len(e.args) <= 2 and not e.keywords:
+            bases = self.expr(fi, fn.value, env, st, stack)
+            if any(isinstance(b, DictV) for b, _, _ in bases):
+                for base, e2, t2 in bases:
+                    if isinstance(base, Exc):
+                        out.append((base, e2, t2))
+                        continue
+                    for vals, e3, t3 in self.seq_eval(fi, list(e.args), e2, t2, stack, lambda vals: vals):
+                        if isinstance(vals, Exc):
+                            out.append((vals, e3, t3))
+                        elif isinstance(base, DictV) and isinstance(vals[0], C):
+                            dflt = vals[1] if len(vals) > 1 else C(None)
+                            out.append((base.map.get(vals[0].v, dflt), e3, t3))
+                        else:
+                            raise AnalysisError(f'E6: dispatch table lookup with a key that is not a token kind: {norm(e)[:50]}')
+                return out
         # arguments first (left to right), then dispatch
         targets = self.cg.resolve_call(e, fi)
 
